@@ -7,7 +7,10 @@ import (
 	"strings"
 
 	"github.com/miekg/dns"
+	"verif/harness/bind"
+	"verif/harness/enum"
 	"verif/harness/fw"
+	"verif/harness/ref/wire"
 )
 
 // c07LengthSpace: token and comment lengths around the multiples of the lexer's buffer quantum
@@ -168,7 +171,32 @@ func c07DirectiveSpace(c *fw.Ctx) {
 			}
 		}
 	}
-	c.Space("directives", fmt.Sprintf("%d written-out directive inputs: an extra ')' at every token boundary (4 spacings) of A/MX/SOA/TXT/NS/CNAME record lines and of each directive line, followed by a valid line (must be an error); nested $GENERATE (3×3 keyword cases × 3 separators × with/without a preceding record × 3 outer ranges: must be an error with no generated record) and 20 $GENERATE ranges at and beyond the 65536-record bound and the int64 edges (count exact, or rejected with no record) × origins {\"\",example.} × includes {off,on}; and $GENERATE → $INCLUDE → $GENERATE through on-disk files; non-trivial: all", len(cases)), true,
+	// the same for one record line of every registered type (the line is the library's own rendering of the
+	// type's default vector — plumbing; what is judged is the text), and an unmatched "(" as well
+	nTyped := 0
+	for _, t := range regTypes() {
+		sp := wire.Specs[t]
+		if sp == nil || t == 41 {
+			continue
+		}
+		rr, err := bind.ToGo(&wire.RR{Name: enum.L("a", "example"), Type: t, Class: 1, TTL: 5, Vals: enum.Default(sp)})
+		if err != nil {
+			continue
+		}
+		line := rr.String()
+		if x, err := dns.NewRR(line); err != nil || x == nil {
+			continue // not re-readable as it stands (C05's business), or rendered as a comment (NULL)
+		}
+		nTyped++
+		f := strings.Fields(line)
+		for i := 3; i <= len(f); i++ {
+			for _, glue := range []string{" ) ", ")", " ( ", "("} {
+				t := strings.Join(f[:i], " ") + glue + strings.Join(f[i:], " ")
+				cases = append(cases, tc{"extra-close", t + "\nafter. 5 IN A 192.0.2.1\n", false, -1, -1})
+			}
+		}
+	}
+	c.Space("directives", fmt.Sprintf("%d written-out directive inputs: an extra ')' at every token boundary (4 spacings) of A/MX/SOA/TXT/NS/CNAME record lines and of each directive line, and an extra ')' / '(' (2 spacings each) at every token boundary behind the class of one record line of each of %d registered types, followed by a valid line (must be an error, and the following line's record must not be returned after an unmatched ')'); nested $GENERATE (3×3 keyword cases × 3 separators × with/without a preceding record × 3 outer ranges: must be an error with no generated record) and 20 $GENERATE ranges at and beyond the 65536-record bound and the int64 edges (count exact, or rejected with no record) × origins {\"\",example.} × includes {off,on}; and $GENERATE → $INCLUDE → $GENERATE through on-disk files; non-trivial: all", len(cases), nTyped), true,
 		func(emit func(func(*fw.R))) {
 			for _, t := range cases {
 				t := t
